@@ -44,7 +44,7 @@ GEN = []
 MODULES = ['TamocV.Props.C03', 'TamocV.Model.Lmp']
 RULE = ('states = (previous row, current row) pairs of real bent_plume_model simulations (random scenario: 100-2500 m, 0-6 '
         'particles gas/liquid/inert, jet or pure multiphase, any orientation, currents none/uniform/sheared with optional wa, '
-        'background concentrations none/some/all, stripping set-up in half of the scenarios with soluble particles (soluble particles list oxygen / nitrogen / CO2 or one of their own compounds with mole fraction exactly 0 while the water holds it; floor 15 % of the states), biodegradation none/random/database, lag time on/off, s/D up to 3-400, '
+        'background concentrations none/some/all, a quarter of the scenarios use ONE Profile object in two stages (currents and some backgrounds appended with Profile.append after the element has queried it; every state evaluated before and after; floor 10 % of the states after the append), stripping set-up in half of the scenarios with soluble particles (soluble particles list oxygen / nitrogen / CO2 or one of their own compounds with mole fraction exactly 0 while the water holds it; floor 15 % of the states), biodegradation none/random/database, lag time on/off, s/D up to 3-400, '
         'first and last stored row always included), unperturbed and randomly perturbed (element mass/salt/heat, momentum '
         'magnitude and direction incl. vertical, depth, arc length incl. ds=0, particle masses incl. zero, heats, ages, '
         'positions inside and outside the half-width, dissolved pool, tracers), each with random in/out-of-plume flags given '
@@ -69,7 +69,7 @@ def _scenario(ctx, i):
     npart = [0, 1, 2, 3, 4, 5, 6][i % 7] if i < 7 else r.randint(0, 6)
     mix = ['gas+inert', 'oil+inert', 'gas', 'oil', 'inert'][i % 5] if i < 10 else 'random'
     scn = scen_bpm.random_scenario(r, nparticles=npart, mix=mix)
-    if i % 2 == 1 and any(sp['kind'] != 'inert' for sp in scn['particles']):
+    if i % 4 in (1, 2, 3) and any(sp['kind'] != 'inert' for sp in scn['particles']):
         # stripping set-up (seeded change C03-3): soluble particles list compounds with mole fraction EXACTLY 0 at the
         # release while the water holds them (background at every depth, hence also in the dissolved pool)
         zero = scen_bpm.add_zero_fraction(r, scn['particles'], n_extra=r.choice([1, 1, 2]))
@@ -83,6 +83,21 @@ def _scenario(ctx, i):
     sol = [j for j, sp in enumerate(scn['particles']) if sp['kind'] != 'inert']
     if sol and r.random() < 0.5:
         scn['particles'].append(scn['particles'].pop(r.choice(sol)))
+    if i % 4 == 2 and scn['particles']:
+        # two-stage use of one Profile object (seeded change C03-6): currents and the background of some compounds are
+        # appended AFTER the element has already looked the ambient up
+        if not scn['profile'].get('current'):
+            sp_, an_ = r.uniform(0.05, 0.3), r.uniform(0., 2. * math.pi)
+            H_ = scn['profile']['H']
+            scn['profile']['current'] = {'nodes': [[0., sp_ * math.cos(an_), sp_ * math.sin(an_), 0.], [H_, 0.5 * sp_ * math.cos(an_), sp_ * math.sin(an_), 0.]], 'wa': False}
+        for sp in scn['particles']:
+            if sp['kind'] != 'inert':
+                for ch in sp['composition']:
+                    if ch not in scn['profile']['background']:
+                        c0 = 10 ** r.uniform(-5, -2)
+                        scn['profile']['background'][ch] = [c0 * r.uniform(0.3, 1.), c0]
+                break
+        scn['append_later'] = scen_bpm.split_profile(r, scn)
     # short trajectories: a handful of stored rows is enough
     scn['release']['sd_max'] = r.choice([r.uniform(3., 40.), r.uniform(3., 40.), r.uniform(40., 400.)])
     scn['release']['dt_max'] = 10 ** r.uniform(0.5, 2.)
@@ -628,13 +643,26 @@ def _real_snapshot(q0l, q1l, parts):
     return d
 
 
+def _table_value(prf, z, name):
+    """the profile table as it is AT THIS MOMENT, interpolated linearly (clamped) at depth z for one variable given by
+    NAME; 0 when the profile has no such variable.  Deliberately not Profile.get_values: what the element looked up
+    (and any bookkeeping of the look-up) is what is being judged; that get_values is clamped linear interpolation of the
+    table is property C07"""
+    names = list(prf.f_names)
+    if name not in names:
+        return 0.
+    tab = np.asarray(prf.interp_data, dtype=float)
+    zc = min(max(float(z), float(tab[0, 0])), float(tab[-1, 0]))
+    return float(np.interp(zc, tab[:, 0], tab[:, 1 + names.index(name)]))
+
+
 def _ambient_at(tam, prf, bpm, z):
-    """the ambient at depth z, looked up by the HARNESS (profile interpolation and seawater.density are library
-    functions here: C07 / C13)"""
-    Pa, Ta, Sa, ua, va, wa = [float(x) for x in prf.get_values(float(z), ['pressure', 'temperature', 'salinity', 'ua', 'va', 'wa'])]
+    """the ambient at depth z, looked up by the HARNESS by name in the profile table (seawater.density is a library
+    function here: C13)"""
+    Pa, Ta, Sa, ua, va, wa = [_table_value(prf, z, n) for n in ('pressure', 'temperature', 'salinity', 'ua', 'va', 'wa')]
     return {'Pa': Pa, 'Ta': Ta, 'Sa': Sa, 'ua': ua, 'va': va, 'wa': wa,
-            'ca_chems': np.asarray(prf.get_values(float(z), list(bpm.chem_names)), dtype=float),
-            'ca_tracers': np.asarray(prf.get_values(float(z), list(bpm.tracers)), dtype=float),
+            'ca_chems': np.array([_table_value(prf, z, n) for n in bpm.chem_names], dtype=float),
+            'ca_tracers': np.array([_table_value(prf, z, n) for n in bpm.tracers], dtype=float),
             'rho_a': float(tam['seawater'].density(Ta, Sa, Pa))}
 
 
@@ -650,7 +678,7 @@ def _independent(tam, prf, bpm, q_prev, q, parts, lay):
         if pt.particle.issoluble:
             allnames += [str(x) for x in pt.composition if str(x) not in allnames]
     # ambient concentration of every dissolving compound, asked from the profile BY NAME
-    d['ca_by_name'] = {x: float(prf.get_values(float(q[9]), [x])[0]) for x in allnames}
+    d['ca_by_name'] = {x: _table_value(prf, q[9], x) for x in allnames}
     a0 = _ambient_at(tam, prf, bpm, q_prev[9])
     d['rho_prev'] = float(sw.density(float(q_prev[2] / (q_prev[0] * cpw)), float(q_prev[1] / q_prev[0]), a0['Pa']))
     a, e = lay['chems']
@@ -726,13 +754,18 @@ def run(ctx, lean_ok):
         if lay0['len'] != q_all.shape[1]:
             ctx.violation('layout-length', 'state vector length is not 11 + sum(nc_i+5) + nchems + ntracers',
                           {'scenario': scn, 'expected': lay0['len'], 'got': int(q_all.shape[1])})
+        appended = False
         zero_slots = [j for sl in lay0['particles'] for j in range(sl['m'][0], sl['m'][1])
                       if q_all[0, j] == 0. and sl['m'][1] - sl['m'][0] > 1] if scn.get('zero_fraction') else []
-        for k in ([0] if zero_slots else []) + ks:
-            for j in range(pert_per):
+        stages = [1, 2] if scn.get('append_later') else [1]
+        for stage, k, j in [(st, k, j) for st in stages for k in ([0] if zero_slots else []) + ks for j in range(pert_per)]:
+            if True:
+                if stage == 2 and not appended:
+                    scen_bpm.append_later(prf, scn['append_later'])      # same Profile object, after it has been queried
+                    appended = True
                 q_prev, t_prev, q, t = q_all[max(k - 1, 0)], t_all[max(k - 1, 0)], q_all[k], t_all[k]
                 if k == 0 and j > 0:
-                    break
+                    continue
                 if j == 0:
                     tag = 'none'
                     # the flags the simulation itself had at that row
@@ -760,6 +793,9 @@ def run(ctx, lean_ok):
                     if not all(flags):
                         n_live_out += 1
                 case = _case(scn, k, q_prev, t_prev, q, t, flags, mode, tag)
+                case['profile_stage'] = stage
+                if stage == 2:
+                    ctx.count('states-after-profile-append')
                 try:
                     with np.errstate(all='ignore'):
                         res = eval_state(tam, bpm, prf, parts, q_prev, t_prev, q, t, flags, mode)
@@ -798,7 +834,7 @@ def run(ctx, lean_ok):
                 elif any(p['issoluble'] and p['integrate'] and np.any(p['k_bio'] != 0) for p in res['ps']):
                     ctx.count('element-k_bio-zero-while-a-particle-biodegrades')
                 if res['env']['s'][0] != 0. and np.all(np.isfinite(res['qp'][:11])):
-                    ctx.nontrivial.add((i, k, j))
+                    ctx.nontrivial.add((i, k, j, stage))
     ctx.evaluations = len(states)
     for case, res in states[:3]:
         ctx.sample({'row': case['row'], 'perturbation': case['perturbation'], 'flags': case['flags'], 'mode': case['mode'],
@@ -817,6 +853,7 @@ def run(ctx, lean_ok):
                n_live_out >= 0.10 * (nstate_ok + nstate_rej), '')
     floors['live-outside-particle-finite-coordinates:beyond-b'] = 20
     floors['live-outside-particle-finite-coordinates:inside-b'] = 20
+    floors['states-after-profile-append'] = int(math.ceil(0.10 * max(nstate_ok, 1)))
     floors['states-with-unsorted-composition'] = int(math.ceil(0.5 * ctx.hist.get('states-with-soluble-particle', 0)))
     floors['zero-mass-component-taking-up-from-water'] = int(math.ceil(0.15 * max(nstate_ok, 1)))
     floors['zero-mass-component-used-up'] = 10
@@ -968,6 +1005,8 @@ def replay(ctx, path):
     rec = json.load(open(path))
     case = rec['case']
     bpm, prf, parts = scen_bpm.simulate(case['scenario'])
+    if case.get('profile_stage') == 2:
+        scen_bpm.append_later(prf, case['scenario']['append_later'])     # the simulation above has queried the profile
     with np.errstate(all='ignore'):
         res = eval_state(tam, bpm, prf, parts, np.array(case['q_prev']), case['t_prev'], np.array(case['q']), case['t'],
                          case['flags'], case['mode'])
